@@ -2,7 +2,7 @@
    granularity), Sched/SchNext.v (UpdateNextCheck over Q).  "For all interleavings" = for every list
    of actions [l] that the model can execute from the initial state ([sch_run ... l = Some s]):
    any number of checkables, any number of pool tasks, any order. *)
-From Icv Require Import Base.Tac Sched.SchModel Sched.SchProofs Sched.SchNext Sched.SchNextProofs Sched.SchOracleProofs.
+From Icv Require Import Base.Tac Sched.SchModel Sched.SchProofs Sched.SchForce Sched.SchNext Sched.SchNextProofs Sched.SchOracleProofs Facts.Facts_c04.
 From Coq Require Import QArith.
 Local Open Scope Z_scope.
 
@@ -32,38 +32,69 @@ Theorem C04_handler : forall s c s',
 Proof. exact sch_thm_handler. Qed.
 Print Assumptions C04_handler.
 
-(* at most one task per checkable between test-and-set and result processing, and then the flag is set *)
+(* at most one execution per checkable in flight - synchronous commands inside Execute(), ASYNCHRONOUS commands whose
+   process is alive (Execute and ExecuteCheck have long returned, the checkable is back in the idle set and gets
+   dispatched again every interval) and asynchronous results on their way into ProcessCheckResult all count - and
+   then the flag is set *)
 Theorem C04_single_flight : forall zone next max l s c,
   0 <= max -> sch_run (sch_init zone next max) l = Some s ->
-  (sch_cnt (c, SchTRunning) (sch_tasks s) <= 1)%nat /\
-  (sch_cnt (c, SchTRunning) (sch_tasks s) = 1%nat -> sch_running (sch_cks s c) = true).
+  (sch_inflight s c <= 1)%nat /\ (sch_inflight s c = 1%nat -> sch_running (sch_cks s c) = true).
 Proof. exact sch_thm_single_flight. Qed.
 Print Assumptions C04_single_flight.
 
-(* the single-flight guard can never wedge: m_CheckRunning is set exactly while one execution is between
-   test-and-set and its ProcessCheckResult entry; that entry (accepted OR rejected result - the clear is the first
-   statement of ProcessCheckResult) is always enabled and clears the flag; with the flag clear the next ExecuteCheck
-   starts the command *)
+(* asynchronous check commands: "Execute() returned, result outstanding" and "process ended, slot counted down" do not
+   touch m_CheckRunning; while an asynchronous execution of c is in flight the flag is set, every further ExecuteCheck
+   of c returns at the guard without a start, and no second execution comes into being *)
+Theorem C04_flag_until_result : forall zone next max l s c,
+  0 <= max -> sch_run (sch_init zone next max) l = Some s ->
+  (forall a s' c', sch_exec s a = Some s' -> (exists x, a = SchATaskLaunch x \/ a = SchAFlightDone x) ->
+     sch_running (sch_cks s' c') = sch_running (sch_cks s c')) /\
+  (sch_fmem c (sch_flights s) || sch_fmem c (sch_fdone s) = true ->
+     sch_running (sch_cks s c) = true /\
+     sch_observe s (SchATaskTas c) = [] /\
+     (forall s', sch_exec s (SchATaskTas c) = Some s' ->
+        sch_inflight s' c = 1%nat /\ sch_flights s' = sch_flights s /\ sch_fdone s' = sch_fdone s /\
+        sch_cnt (c, SchTRunning) (sch_tasks s') = 0%nat)).
+Proof.
+  intros zone next max l s c Hm H. split.
+  - intros a s' c' E X. eapply sch_thm_flag_until_result_step; eassumption.
+  - apply (sch_thm_flag_until_result zone next max l s c Hm H).
+Qed.
+Print Assumptions C04_flag_until_result.
+
+(* command_endpoint branch, as the code has it: the flag is released before ExecuteCheck returns (the remote side and
+   next_check = now + timeout + 30 are what keeps a second remote execution away, not this flag) *)
+Theorem C04_remote_releases_on_return : forall s c ov s',
+  sch_exec s (SchATaskRemote c ov) = Some s' ->
+  sch_running (sch_cks s' c) = false /\ sch_has (c, SchTReturned) (sch_tasks s') = true /\
+  sch_flights s' = sch_flights s /\ sch_fdone s' = sch_fdone s.
+Proof. exact sch_thm_remote_releases. Qed.
+Print Assumptions C04_remote_releases_on_return.
+
+(* the single-flight guard can never wedge: m_CheckRunning is set exactly while one execution is in flight; the steps
+   through which that execution delivers its result (synchronous: ProcessCheckResult inside Execute; asynchronous: the
+   process callback, then ProcessCheckResult) are enabled whatever the outcome - the clear is the first statement of
+   ProcessCheckResult - and leave the flag clear; with the flag clear the next ExecuteCheck starts the command *)
 Theorem C04_no_wedge : forall zone next max l s c,
   0 <= max -> sch_run (sch_init zone next max) l = Some s ->
-  (sch_running (sch_cks s c) = true ->
-     sch_cnt (c, SchTRunning) (sch_tasks s) = 1%nat /\
-     forall v, exists s', sch_exec s (SchATaskResult c v) = Some s' /\ sch_running (sch_cks s' c) = false) /\
+  (sch_running (sch_cks s c) = true -> sch_inflight s c = 1%nat /\ sch_can_finish s c) /\
   (sch_running (sch_cks s c) = false -> sch_has (c, SchTUpdated) (sch_tasks s) = true ->
      exists s', sch_exec s (SchATaskTas c) = Some s' /\ sch_observe s (SchATaskTas c) = [SchEvStart (sch_zid c)]).
 Proof. exact sch_thm_no_wedge. Qed.
 Print Assumptions C04_no_wedge.
 
 Theorem C04_result_clears_flag : forall s c v s',
-  sch_exec s (SchATaskResult c v) = Some s' -> sch_running (sch_cks s' c) = false.
+  sch_exec s (SchATaskResult c v) = Some s' \/ sch_exec s (SchAFlightResult c v) = Some s' -> sch_running (sch_cks s' c) = false.
 Proof. exact sch_thm_result_clears. Qed.
 Print Assumptions C04_result_clears_flag.
 
-(* running <= dispatched-and-not-counted-down <= pending-check counter <= max_concurrent_checks *)
+(* executions at work (synchronous commands inside Execute + asynchronous processes alive) <= occupied slots <=
+   max_concurrent_checks; the pending-check counter covers every occupied slot *)
 Theorem C04_concurrency : forall zone next max l s,
   0 <= max -> sch_run (sch_init zone next max) l = Some s ->
-  Z.of_nat (length (sch_runlist (sch_tasks s))) <= Z.of_nat (sch_live (sch_tasks s)) /\
-  Z.of_nat (sch_live (sch_tasks s)) <= sch_pcount s /\ sch_pcount s <= max.
+  (length (sch_runlist (sch_tasks s)) + length (sch_flights s) <= sch_slots (sch_tasks s) (sch_flights s))%nat /\
+  Z.of_nat (sch_slots (sch_tasks s) (sch_flights s)) <= max /\
+  Z.of_nat (sch_slots (sch_tasks s) (sch_flights s)) <= sch_pcount s.
 Proof. exact sch_thm_concurrency. Qed.
 Print Assumptions C04_concurrency.
 
@@ -94,13 +125,72 @@ Print Assumptions C04_next_check_after_result.
 
 (* the scheduler reads force_next_check when it picks; a picked forced checkable cannot be skipped
    and is moved to pending whatever enable_active_checks / period / reachability say *)
-Theorem C04_forced : forall s c,
+Theorem C04_forced_pick : forall s c,
   (forall s', sch_exec s (SchAPick c) = Some s' -> sch_pc s' = SchSHold c (sch_force (sch_cks s c))) /\
   (sch_pc s = SchSHold c true ->
    sch_exec s SchASkip = None /\
    exists s', sch_exec s SchADispatch = Some s' /\ sch_mem c (sch_pend s') = true /\ sch_pc s' = SchSPostA c true).
 Proof. intros. split; [intros; apply sch_thm_pick_reads_force; assumption|apply sch_thm_forced]. Qed.
+Print Assumptions C04_forced_pick.
+
+(* a force request made at ANY moment - in any reachable state, also while a (forced) check of the same checkable is
+   running, queued or held by the scheduler - leads to one more execution that starts after the request:
+   (1) as long as no callback of c has reached the test-and-set of m_CheckRunning after the request (and nobody has
+       withdrawn the flag) the request stays registered: force_next_check is set (then C04_forced_pick: the next pop
+       cannot skip c), or the scheduler has consumed it and is between the clear and QueueAsyncCallback, or the
+       callback is in the pool in front of its test-and-set;
+   (2) that test-and-set starts the command, UNLESS - the exact exception - exactly one execution of c is in flight at
+       that very moment (flag set): the request is then absorbed by the execution found running AFTER the request
+       (synchronous commands: only after a pause/resume put c back into idle while pending; asynchronous commands:
+       whenever the previous check has not delivered its result yet). *)
+Theorem C04_forced : forall zone next max l0 c l2 s,
+  0 <= max -> sch_run (sch_init zone next max) (l0 ++ SchASetForce c true :: l2) = Some s ->
+  (forallb (fun a => negb (sch_consumes c a)) l2 = true -> sch_force_pending s c) /\
+  (forall s', sch_exec s (SchATaskTas c) = Some s' ->
+     (sch_running (sch_cks s c) = false /\ sch_observe s (SchATaskTas c) = [SchEvStart (sch_zid c)] /\
+        sch_has (c, SchTRunning) (sch_tasks s') = true) \/
+     (sch_running (sch_cks s c) = true /\ sch_observe s (SchATaskTas c) = [] /\
+        sch_inflight s c = 1%nat /\ sch_inflight s' c = 1%nat)).
+Proof.
+  intros zone next max l0 c l2 s Hm H. split.
+  - intros NC. destruct (sch_run_app _ _ _ _ H) as (s0 & _ & H2). eapply sch_thm_forced_request; eassumption.
+  - intros s' E. eapply sch_thm_forced_tas; eassumption.
+Qed.
 Print Assumptions C04_forced.
+
+(* with force_next_check cleared AFTER the execution (by the pool thread, once ExecuteCheck has returned) statement (1)
+   is false: a second request made while the forced check executes is wiped out - nothing is registered any more
+   although no callback of the checkable has reached a test-and-set since; the next pop is not forced, cannot be
+   dispatched and is skipped.  The same schedule in the model of the code as it is keeps the request (second lemma). *)
+Theorem C04_forced_late_clear_refuted :
+  forallb (fun a => negb (sch_consumes 7 a)) sch_late_suffix = true /\
+  match sch_run_late (sch_init (fun _ => true) (fun _ => 3) 2, []) (sch_late_prefix ++ SchASetForce 7 true :: sch_late_suffix) with
+  | Some (s, _) =>
+      sch_force_pendingb s 7 = false /\ sch_running (sch_cks s 7) = false /\ sch_tasks s = [] /\ sch_mem 7 (sch_idle s) = true /\
+      match sch_run_late (s, []) [SchATick 200; SchAPick 7] with
+      | Some (s2, _) => sch_pc s2 = SchSHold 7 false /\ sch_exec s2 SchADispatch = None /\
+                        (exists s3, sch_exec s2 SchASkip = Some s3 /\ sch_mem 7 (sch_idle s3) = true /\ sch_tasks s3 = [])
+      | None => False
+      end
+  | None => False
+  end.
+Proof. exact sch_thm_forced_late_clear_refuted. Qed.
+Print Assumptions C04_forced_late_clear_refuted.
+
+(* the source as it is now has neither refuted shape: SetForceNextCheck(false) is not in ExecuteCheckHelper behind
+   ExecuteCheck(), and no `m_CheckRunning = false' of ExecuteCheck is reachable by local executions
+   (regenerated coq/Facts/Facts_c04.v; None = shape not recognised, then only the runs decide) *)
+Theorem C04_source_sites : f_sch_force_clear_site <> Some 1 /\ f_sch_flag_release_site <> Some 1.
+Proof. split; discriminate. Qed.
+Print Assumptions C04_source_sites.
+
+(* observable form of "the clear precedes the execution it belongs to": on complete runs every clear of
+   force_next_check is followed by an entry of ExecuteCheck of the same checkable (one entry per clear) *)
+Theorem C04_force_oracle_accepts_model : forall zone next max l s cs,
+  sch_run (sch_init zone next max) l = Some s -> sch_quiescent s ->
+  sch_force_oracle (map sch_zid cs) (sch_ftrace (sch_init zone next max) l) = None.
+Proof. exact sch_force_oracle_accepts_model. Qed.
+Print Assumptions C04_force_oracle_accepts_model.
 
 (* partial liveness = enabledness: a due head of the idle index and a free slot enable the pick; after it
    no scheduler step other than the decision is enabled, and exactly one decision is *)
@@ -139,6 +229,22 @@ Example C04_nonvacuous :
   match sch_run (sch_init (fun _ => true) (fun _ => 3) 2) l with
   | Some s => sch_mem 7 (sch_pend s) = true /\ sch_cnt (7%nat, SchTRunning) (sch_tasks s) = 1%nat /\
               sch_cnt (7%nat, SchTReturned) (sch_tasks s) = 1%nat /\ sch_pcount s = 2 /\ sch_force (sch_cks s 7) = false
+  | None => False
+  end.
+Proof. vm_compute. repeat split. Qed.
+
+(* non-vacuity, asynchronous command slower than its interval: the task launches the command and finishes, the
+   checkable is back in idle, becomes due again, is dispatched again; the second ExecuteCheck returns at the guard
+   (no second start); the result arrives later and clears the flag *)
+Example C04_nonvacuous_async :
+  let l := [SchASetActive 7 true; SchAObjectHandler 7; SchASetPaused 7 false; SchAObjectHandler 7;
+            SchATick 5; SchAPick 7; SchADispatch; SchAClearForce; SchAIncrease; SchAEnqueue;
+            SchATaskUpdate 7 15; SchATaskTas 7; SchATaskLaunch 7; SchATaskDecrease 7; SchATaskFinish 7;
+            SchATick 20; SchAPick 7; SchADispatch; SchAClearForce; SchAIncrease; SchAEnqueue;
+            SchATaskUpdate 7 35; SchATaskTas 7; SchATaskDecrease 7; SchATaskFinish 7] in
+  sch_trace (sch_init (fun _ => true) (fun _ => 3) 2) l = [SchEvStart 7] /\
+  match sch_run (sch_init (fun _ => true) (fun _ => 3) 2) (l ++ [SchAFlightDone 7; SchAFlightResult 7 60]) with
+  | Some s => sch_running (sch_cks s 7) = false /\ sch_pcount s = 0 /\ sch_flights s = [] /\ sch_mem 7 (sch_idle s) = true
   | None => False
   end.
 Proof. vm_compute. repeat split. Qed.
